@@ -4,6 +4,7 @@ package main
 // (nondet values by name, materialised initial store entries, params, environment).
 
 import (
+	"os"
 	"encoding/base64"
 	"encoding/hex"
 	"fmt"
@@ -548,6 +549,9 @@ func (m *Machine) buildCase(label string, model map[string]string) *CaseFile {
 		cf.EnvInts = append(cf.EnvInts, ev.intOf(t).String())
 	}
 	cf.Env = append(cf.Env, m.w.envLog...)
+	if os.Getenv("GOSYM_DEBUG") != "" {
+		cf.Model = model
+	}
 	return cf
 }
 
